@@ -10,7 +10,7 @@
 (* Reject twin reports the failing clause and goes on; a Panic or a        *)
 (* process abort is never a behaviour.                                     *)
 (***************************************************************************)
-EXTENDS CorridorOps, SplineFitOps, SolveOps, TLC, Json, IOUtils
+EXTENDS CorridorOps, FunnelOps, SplineFitOps, SolveOps, TLC, Json, IOUtils
 
 CONSTANT Props
 
@@ -19,7 +19,7 @@ Trace == ndJsonDeserialize(IOEnv.VERIF_TRACE)
 VARIABLES l, cur, cnt
 tvars == <<l, cur, cnt>>
 NoCall == [ev |-> "None"]
-TraceInit == l = 1 /\ cur = NoCall /\ cnt = [calls |-> 0, returns |-> 0, judged |-> 0, nontriv |-> 0, viol |-> 0, panics |-> 0, aborts |-> 0, unjudged |-> 0]
+TraceInit == l = 1 /\ cur = NoCall /\ cnt = [calls |-> 0, returns |-> 0, judged |-> 0, nontriv |-> 0, viol |-> 0, panics |-> 0, aborts |-> 0, unjudged |-> 0, l3 |-> 0]
 
 IsEvent(ev) == l <= Len(Trace) /\ Trace[l].ev = ev /\ l' = l + 1
 Rec == Trace[l]
@@ -41,6 +41,21 @@ C19_NonTrivial(c, r) == Len(Norm(PathSeq(r))) >= 3
 \* diagnostic (DRIFT, never a verdict): the intermediate triangulation is a triangulation of the corridor
 TriSeq(r) == [i \in DOMAIN r.tris |-> <<Pt(r.tris[i][1]), Pt(r.tris[i][2]), Pt(r.tris[i][3])>>]
 C19_Drift(c, r) == IF "tris" \in DOMAIN r /\ ~TriangulationOK(RectSeq(c), TriSeq(r)) THEN {"DRIFT_Triangulation"} ELSE {}
+\* layer 3 (diagnostic, clause prefix L3_, never a verdict): the recorded triangulation and the returned path are EXACTLY
+\* what the transcription of geom.Shortest (FunnelOps) computes.  Orientations are float64 cross products in the code and
+\* integer ones in the model; they agree for certain when the coordinates are exact in binary: the grid is a power of two,
+\* or every coordinate is a whole number of units.
+ExactInBinary(c) == \/ c.den \in {1, 2, 4, 8, 16, 32, 64}
+                    \/ /\ \A i \in DOMAIN c.rects : \A j \in 1..4 : c.rects[i][j] % c.den = 0
+                       /\ \A j \in 1..2 : c.s[j] % c.den = 0 /\ c.e[j] % c.den = 0
+C19_L3Applies(c, r) == c.kind = "shortest" /\ r.exact = 1 /\ ExactInBinary(c) /\ Len(c.rects) <= 24
+C19_L3(c, r) ==
+    IF C19_L3Applies(c, r)
+    THEN LET res == Shortest(Pt(c.s), Pt(c.e), RectSeq(c))
+         IN (IF "tris" \in DOMAIN r /\ TriSeq(r) # res.tris THEN {"L3_TriangulationAsModelled"} ELSE {})
+            \cup (IF res.bad # "" THEN {"L3_ShortestReturnsAsModelled"}
+                  ELSE IF res.path # PathSeq(r) THEN {"L3_ShortestPathAsModelled"} ELSE {})
+    ELSE {}
 
 \* ------------------------------------------------------------------ C20
 \* kind "fit": r.path (end -> start, integer), r.pieces (4 control points each, unit 1/1000), r.joined, r.fin, r.events
@@ -75,7 +90,7 @@ C20_NonTrivial(c, r) == IF c.kind = "solve" THEN Len(r.miss) >= 2 ELSE Len(r.pie
 \* ------------------------------------------------------------------ dispatch
 Applies(P, c, r) == CASE P = "C19" -> C19_Applies(c, r)
                       [] P = "C20" -> C20_Applies(c, r)
-Fail(P, c, r) == CASE P = "C19" -> C19_Fail(c, r) \cup C19_Drift(c, r)
+Fail(P, c, r) == CASE P = "C19" -> C19_Fail(c, r) \cup C19_Drift(c, r) \cup C19_L3(c, r)
                    [] P = "C20" -> C20_Fail(c, r)
 NonTrivial(P, c, r) == CASE P = "C19" -> C19_NonTrivial(c, r)
                          [] P = "C20" -> C20_NonTrivial(c, r)
@@ -91,7 +106,8 @@ TraceReturn ==
        IN /\ (IF V = {} THEN TRUE ELSE PrintT("VIOL " \o ToJson(<<cur.case, V>>)))
           /\ cnt' = [cnt EXCEPT !.returns = @ + 1, !.judged = @ + (IF J # {} THEN 1 ELSE 0),
                                 !.unjudged = @ + (IF J = {} THEN 1 ELSE 0),
-                                !.nontriv = @ + (IF N # {} THEN 1 ELSE 0), !.viol = @ + (IF V # {} THEN 1 ELSE 0)]
+                                !.nontriv = @ + (IF N # {} THEN 1 ELSE 0), !.viol = @ + (IF V # {} THEN 1 ELSE 0),
+                                !.l3 = @ + (IF "C19" \in J /\ C19_L3Applies(cur, Rec) THEN 1 ELSE 0)]
     /\ cur' = NoCall /\ Final
 \* a panic or a process abort inside a geometry entry point on a well-formed case is a violation of the property that owns the case
 Owner(c) == IF c.kind = "shortest" THEN "C19" ELSE "C20"
